@@ -11,6 +11,12 @@ def dispatch(prop, tier):
     if prop in ("C05", "C06", "C07", "C19"):
         from . import check_store
         return check_store.run(prop, tier)
+    if prop in ("C02", "C10", "C15", "C16"):
+        from . import check_runner
+        return check_runner.run(prop, tier)
+    if prop == "C17":
+        from . import check_part
+        return check_part.run(prop, tier)
     if prop == "C08":
         from . import check_faults
         return check_faults.run(prop, tier)
